@@ -7,6 +7,12 @@ from the template (harness/gen_c01.py: no genshi involved), each payload verbati
 
 Correspondence: the same case goes through the Lean model (gdrv): model output text == real output text,
 and the model's reader applied to the real output == the independent parser's tokens.
+
+Wave 4 (package rawtext): script/style elements hold literals with `<` / `&` and substitution sites.  Under xml / xhtml they
+are ordinary elements; under html their content is raw text: the skeleton carries the strings as emitted (the documentation
+the property cites: no escaping takes place there), a case whose raw content holds `</` is the property's own exception and
+is not judged (gen_c01.raw_etago).  Two more correspondence streams tie `coalesceR` / `expectedListR` / `rawOkGo`
+(structure_preserved_rawtext_partial, reread_rawtext_nostrip) to the generator's skeleton and to html.parser on real streams.
 """
 import json, random
 from harness import proto
@@ -30,7 +36,7 @@ ASSUMPTIONS = [
     'payload characters under xml/xhtml are XML 1.0 Chars without CR (finding C01-xml-unrepresentable); attribute payloads under xml/xhtml '
     'carry no TAB/LF (XML attribute-value normalisation, finding C01-attr-ws-xml)',
     'strip_whitespace=True: text is compared after the documented whitespace normalisation (trailing blanks before a newline, runs of newlines)',
-    'script/style elements carry literal text without < and & only (substitution inside them is the exception the property states for html; their own content is the concern of C08/C09); no CDATA, no xml:space',
+    'script/style elements hold literal text (with < and &, never </) and substitution sites ${v}: under xml/xhtml they are ordinary elements (judged as everywhere); under html the content is raw text — judged against the strings as emitted when the content holds no </, not judged (the exception the property states) when it does; no xml:space',
     'operands of Markup operators are str, Markup or objects with __html__ (domain of C18); boolean attributes and prefixed attribute names are not generated',
 ]
 
@@ -139,6 +145,10 @@ def oracle_case(case):
         G.validate(case)
     except Exception:
         # not a case of the grammar (a shrinking step, a hand-written replay): the oracle does not judge it
+        return None
+    if G.raw_etago(case):
+        # html, and the content of a script/style element holds `</`: "except inside script/style elements under the html
+        # method … where the documentation says no escaping takes place" — the property does not constrain this case
         return None
     exp = G.Spec(case).expected()      # a valid case always has a skeleton: an exception here is a harness defect
     want0 = G.coalesce(G.first_choice(exp), case['strip'], case['method'])
@@ -286,6 +296,8 @@ def count_shapes(case, res):
         res.count('shape:' + sh)
         if sh.endswith('raw-END'):
             res.count('shape:%s:%s' % (sh, where))
+    for sh in G.raw_site_shapes(case):
+        res.count('shape:' + sh)
 
 
 def matrix_shard(arg):
